@@ -84,6 +84,14 @@ impl TryFrom<&BoardBuilder> for ChessBoard {
             }
         }
 
+        // each side needs exactly one king before pins, checks and the terminal status can be derived
+        let king_mask = board.get_piece_type_mask(King);
+        for color in [White, Black] {
+            if (king_mask & board.get_color_mask(color)).count_ones() != 1 {
+                return Err(Error::InvalidBoardMultipleOneColorKings);
+            }
+        }
+
         board
             .set_side_to_move(builder.get_side_to_move())
             .set_en_passant(builder.get_en_passant())
